@@ -354,7 +354,10 @@ class Harness:
                 k = sim.draw_int(0, 3, "nparts")
                 cuts = sorted(sim.draw_int(0, n, "part") for _ in range(k))
                 parts = [data[a:b] for a, b in zip([0] + cuts, cuts + [n])]
-                s.app.transport.writeSequence(parts)
+                kind = sim.draw_choice(["list", "tuple", "generator"], "iovec")   # any iterable of bytes is a legal argument
+                if kind == "generator":
+                    sim.probe("writeSequence_one_shot_iterable")
+                s.app.transport.writeSequence(parts if kind == "list" else tuple(parts) if kind == "tuple" else (x for x in parts))
             else:
                 s.app.transport.write(data)
 
